@@ -124,10 +124,10 @@ func init() {
 		Assumptions: commonAssumptions, MinEvals: 400000,
 		MinCounters: map[string]int64{"snapshots_reverified": 1000000, "caller_modifications_of_latest_result": 20000, "outcome_error": 50000, "outcome_error-on-deep-document": 60, "outcome_ok": 100000}})
 	register(&Spec{ID: "C16", Run: RunC16,
-		Rule:        "inputs (W7 strings, surrogates, W3 documents, a twelfth of the W1 sweep, W5) are held in PROT_READ guard pages while every exported function and both traversals run (a store faults); string tokens additionally go through ReadStringBytes/UnescapeStringContent/StdLibCompatibleStringBytes with 35 destination shapes (len 0..17, spare capacity 0..2*need+5, random contents and random garbage in the spare capacity) and ReadString/DecodeString with 12 dirty scratch shapes; returned strings and trees are re-read after the harness overwrites the input copy, the scratch (full capacity) and reuses the reader; distinct by input hash; non-trivial = input contains a double quote",
+		Rule:        "inputs (W7 strings, surrogates, W3 documents, a twelfth of the W1 sweep, W5) are held in PROT_READ guard pages while every exported function and both traversals run (a store faults); string tokens additionally go through ReadStringBytes/UnescapeStringContent/StdLibCompatibleStringBytes with 35 destination shapes (len 0..17, spare capacity 0..2*need+5, random contents and random garbage in the spare capacity) and ReadString/DecodeString with 12 dirty scratch shapes; SkipValue/SkipValueFast/Valid with no Buffer, a long-lived Buffer and a Buffer grown and left dirty by deep handler traversals (incl. depth-boundary documents) must agree; returned strings and trees are re-read after the harness overwrites the input copy, the scratch (full capacity) and reuses the reader; distinct by input hash; non-trivial = input contains a double quote",
 		Assumptions: append([]string{"write detection relies on mprotect(PROT_READ) + debug.SetPanicOnFault"}, commonAssumptions...),
 		MinEvals:    10000000,
-		MinCounters: map[string]int64{"inputs_in_read_only_pages": 100000, "append_semantics_calls": 2000000, "scratch_independence_calls": 500000, "returned_strings_rechecked_after_overwrites": 300000, "returned_trees_rechecked_after_overwrites": 100000}})
+		MinCounters: map[string]int64{"inputs_in_read_only_pages": 100000, "append_semantics_calls": 2000000, "scratch_independence_calls": 500000, "returned_strings_rechecked_after_overwrites": 300000, "returned_trees_rechecked_after_overwrites": 100000, "buffer_independence_comparisons": 100000}})
 	register(&Spec{ID: "C17", Run: RunC17,
 		Rule:        "EXHAUSTIVE: every 0-, 1- and 2-byte string and every 3-byte string with a lead byte >= 0x80 (8,454,401 strings); plus a position sweep (one or two invalid bytes at every offset of plain strings of every length 1..72), generated 4-byte boundary sequences and longer strings, generated value trees with invalid UTF-8 in strings and keys at every depth (argument snapshot compared, result scribbled to expose shared containers), and W3 documents decoded by ReadValue and compared with encoding/json when no keys collide; distinct by construction; non-trivial = not valid UTF-8 (strings), every tree, every compared document",
 		Assumptions: commonAssumptions, MinEvals: 10000000,
